@@ -3,7 +3,7 @@
    ExtrOcamlNativeString: [byte] -> OCaml [char] (256 constructors, listed in the stock file),
    [string] -> OCaml [string]. N/Z/positive/nat stay Coq's inductive types. *)
 From Coq Require Import Extraction ExtrOcamlBasic ExtrOcamlNativeString.
-From NfpmV Require Import Lib.Bytes Model.Path Model.Content Model.Prepare Model.Payload Model.Meta Model.Version Model.VerCmp Model.Cli Model.TypeTree Model.Expand Model.Merge Model.Writers Model.OutputProgs Model.Cpio Model.Tar Model.RpmFile Model.Container Model.Mtree Model.TarFields Model.Deb822 Model.Pkginfo Proofs.PkginfoProofs Proofs.Deb822Proofs Proofs.ControlFields Spec.C06 Spec.C07 Spec.C10 Model.History Model.Conc Model.Sharing Proofs.C12Proofs Spec.C13 Spec.C16 Spec.C14 Spec.C15 Spec.C05 Spec.C01 Spec.C08 Spec.C09 Spec.C03 Spec.C04 Spec.C02.
+From NfpmV Require Import Lib.Bytes Model.Path Model.Content Model.Prepare Model.Payload Model.Meta Model.Version Model.VerCmp Model.Cli Model.TypeTree Model.Expand Model.Merge Model.Writers Model.OutputProgs Model.Cpio Model.Tar Model.RpmFile Model.Container Model.Mtree Model.TarFields Model.Deb822 Model.DebLists Model.Pkginfo Proofs.PkginfoProofs Proofs.Deb822Proofs Proofs.ControlFields Spec.C06 Spec.C07 Spec.C10 Model.History Model.Conc Model.Sharing Proofs.C12Proofs Spec.C13 Spec.C16 Spec.C14 Spec.C15 Spec.C05 Spec.C01 Spec.C08 Spec.C09 Spec.C03 Spec.C04 Spec.C02.
 From NfpmV Require Import Gen.ArchTables Gen.TypeTree Gen.Schema.
 From NfpmV Require Import Gen.FsPaths.
 Extraction Language OCaml.
@@ -16,7 +16,7 @@ Extraction "model.ml"
   payload_of check_C01 holds_C01 envelope_C01 lookup_hash tzero fi_empty
   check_C08 conffiles_model backups_model check_C09 model_scripts expected_scripts render_install sort_slots
   check_C03 arch_mtree mtree_reencodes mtree_read mtree_text check_C04 check_names cpio_reencodes cpio_read tar_reencodes_full tar_reencodes_cut tar_raw_list tar_logical tar_fields_reencode rpm_reencodes ar_reencodes
-  p_read arch_info_fields wf_pfield d_read control_single_lines deb_fields kv_of deb_control ipk_control apk_pkginfo arch_pkginfo rpm_meta check_C02 c02_clause_text arch_prerelease_dropped
+  md5sums_text md5sums_read conffiles_text conffiles_read p_read arch_info_fields wf_pfield d_read control_single_lines deb_fields kv_of deb_control ipk_control apk_pkginfo arch_pkginfo rpm_meta check_C02 c02_clause_text arch_prerelease_dropped
   arch_deb arch_rpm arch_apk arch_ipk arch_archlinux arch_doc gs
   split_version semver_parse dpkg_cmp rpm_cmp check_split check_order_dpkg check_order_rpm
   cli_plan check_cli check_filename expected_filename model_filename
